@@ -214,7 +214,28 @@ pub fn check_pool(c: &crate::props::c10::ParCase, st: &mut Stats) -> Result<(), 
     use crate::pool::{run_pool, PoolCfg, PoolKind};
     let kind = [PoolKind::Tcp, PoolKind::Http, PoolKind::Tls][(c.kind % 3) as usize];
     let pk = c.trace.interleaved();
-    let frames: Vec<Vec<u8>> = pk.iter().map(|p| p.frame.clone()).collect();
+    // other traffic that belongs to no connection at all: every second case mixes UDP datagrams, a truncated IPv4 header and a TCP
+    // header cut short between the connections' packets (a worker that lets such a packet disturb its batch loses its neighbours)
+    let noise: [Vec<u8>; 3] = [
+        { let mut f = vec![2u8, 0, 0, 0, 0, 2, 2, 0, 0, 0, 0, 1, 8, 0, 0x45, 0, 0, 28, 0, 0, 0x40, 0, 64, 17, 0, 0, 10, 0, 0, 1, 10, 0, 0, 2]; f.extend_from_slice(&[0, 53, 0, 53, 0, 8, 0, 0]); f },
+        vec![2, 0, 0, 0, 0, 2, 2, 0, 0, 0, 0, 1, 8, 0, 0x45, 0, 0, 40, 0, 0],
+        { let mut f = vec![2u8, 0, 0, 0, 0, 2, 2, 0, 0, 0, 0, 1, 8, 0, 0x45, 0, 0, 30, 0, 0, 0x40, 0, 64, 6, 0, 0, 10, 0, 0, 1, 10, 0, 0, 2]; f.extend_from_slice(&[0x9c, 0x40, 0, 80, 0, 0, 0, 1, 0, 0]); f },
+    ];
+    let noisy = c.perturb & 1 == 1;
+    let mut frames: Vec<Vec<u8>> = vec![];
+    for (i, p) in pk.iter().enumerate() {
+        if noisy && (c.perturb >> (1 + i % 60)) & 1 == 1 {
+            // varying the IP id makes the copies different frames (the fallback hash of a flow-less frame spreads them over the workers)
+            let mut n = noise[i % 3].clone();
+            n[18] = (i >> 8) as u8;
+            n[19] = i as u8;
+            frames.push(n);
+        }
+        frames.push(p.frame.clone());
+    }
+    if noisy {
+        st.class("with-noise-frames");
+    }
     let mut clock: std::collections::HashMap<u32, u64> = std::collections::HashMap::new();
     for p in &pk {
         if let Some(v) = p.tsval {
